@@ -320,9 +320,42 @@ func runC03(c *Ctx) {
 	}
 	r := c.R
 	defer func() { c03w.close() }()
+	// long wide strings every run: a character beyond the BMP whose two code units sit on either side of unit index B
+	// (B a power of two from 64 to 8192) -- decoders that work in blocks must not split the pair
+	for B := 64; B <= 8192; B *= 2 {
+		rs := make([]rune, 0, B+2)
+		for j := 0; j < B-1; j++ {
+			rs = append(rs, rune('a'+j%26))
+		}
+		rs = append(rs, 0x1F600, 'z')
+		c.Count("utf16.long")
+		c03Line(c, fmt.Sprintf("utf16 %s %s", cpsStr(rs), hx(utf16le(rs))))
+	}
 	for i := 0; c.Lines < c.N; i++ {
 		if i%12 == 11 {
 			genSessionCase(c)
+			continue
+		}
+		if i%150 == 29 { // long wide strings: 100-9000 code units, characters beyond the BMP at random places and across a power-of-two unit index
+			n := 100 + r.Intn(1<<uint(7+r.Intn(7)))
+			B := 1 << uint(6+r.Intn(8))
+			rs := make([]rune, 0, n)
+			units := 0
+			for units < n {
+				switch {
+				case units == B-1 || r.Chance(1, 40):
+					rs = append(rs, rune(0x10000+r.Intn(0x100000)))
+					units += 2
+				case r.Chance(1, 10):
+					rs = append(rs, rune(0x800+r.Intn(0xD000)))
+					units++
+				default:
+					rs = append(rs, rune(0x20+r.Intn(0x5f)))
+					units++
+				}
+			}
+			c.Count("utf16.long")
+			c03Line(c, fmt.Sprintf("utf16 %s %s", cpsStr(rs), hx(utf16le(rs))))
 			continue
 		}
 		if i%40 == 7 { // a directory listing as the agent reports it, for the console and for the client's file explorer
